@@ -16,10 +16,13 @@ with the same sync tag; for structurally complete chain-allreduce groups every s
 completed matching receive has exactly one pair; no ph=F event in the output.  The same oracle runs
 end to end on the exported JSON of `acelyzer --flow` for generated multi-rank scenarios.
 
-Open known finding reproduced and classified, not hidden: classifier "flow-prefix-final" — a group
-was emitted while a later event of the same CollGroup still arrives and the only arrows missing in
-that (complete) group are its multicast-segment arrows.  Any other missing arrow is
-"flow-missing-arrow".
+Open known finding reproduced and classified, not hidden: classifier "flow-prefix-final" — in a
+structurally complete chain group the only arrows missing are multicast-segment (XSEG) arrows, the
+group was emitted while a later event of the same CollGroup still arrives (stage level: its s/f
+events precede a later slice of the group in the output stream; end to end: some of its arrows are
+exported), and the input shows the situation of the finding: an event of another group arrives
+strictly after the end of everything of the group seen so far while more of the group follows.
+Any other missing arrow is "flow-missing-arrow" (a VIOLATION).
 
 Tolerant fields (non-dyadic literal 0.001): `ts` of `f` events only (1e-9 relative).  Everything
 else is compared exactly on the exact grid (integer / 1/16 us times below 2^32).
@@ -308,15 +311,18 @@ def complete_groups(slices):
     return res
 
 
-def gap_with_foreign_event(slices, g):
-    """input-side description of the open finding: in global (ts, -dur) order an event of another group arrives
-    after the end of everything of `g` seen so far while a later event of `g` still arrives"""
-    order = sorted(range(len(slices)), key=lambda i: (slices[i]["ts"], -(slices[i]["dur"] or 0)))
-    seen_end = None
-    idx_g = [i for i in order if slices[i]["cg"] == g]
-    if not idx_g:
+def gap_with_foreign_event(slices, g, arrival_order=False):
+    """input-side description of the open finding: an event of another group arrives strictly after the end of
+    everything of `g` that arrived before it, while a later event of `g` still arrives.  Order: the global
+    (ts, -dur) sort in front of the flow stages (end to end) or the given arrival order (stage level)."""
+    order = list(range(len(slices)))
+    if not arrival_order:
+        order.sort(key=lambda i: (slices[i]["ts"], -(slices[i]["dur"] or 0)))
+    pos_g = [pos for pos, i in enumerate(order) if slices[i]["cg"] == g]
+    if not pos_g:
         return False
-    last_pos = max(order.index(i) for i in idx_g)
+    last_pos = pos_g[-1]
+    seen_end = None
     for pos, i in enumerate(order):
         s = slices[i]
         if s["cg"] == g:
@@ -407,7 +413,7 @@ def oracle(slices, flows, stream=None, e2e=False, ids_only=False):
             first_flow = next((i for i, e in enumerate(stream) if e["ph"] in ("s", "f") and e.get("cat") == g), None)
             later = first_flow is not None and any(
                 e["ph"] == "X" and e.get("args", {}).get("CollGroup") == g for e in stream[first_flow + 1:])
-            early = later
+            early = later and gap_with_foreign_event(slices, g, arrival_order=True)
         else:
             some_emitted = any(f.get("cat") == g for f in flows)
             early = some_emitted and gap_with_foreign_event(slices, g)
@@ -650,9 +656,11 @@ def grid_words(ctx: Ctx):
     ctx.extra["exhaustive"] = True
     # the complete 3-rank group with a foreign event at every position, short / covering receives
     full = ["s01", "r1", "s12", "r2", "bc", "x0", "x1", "md", "q0", "q1"]
-    for lng in (False, True):
+    # short / covering / touching receives ("touch": the receive ends exactly at the next event's ts, so a foreign
+    # event right behind it arrives at ts == latest_ts of the group: the strict `<` of group_candidates)
+    for lng in (False, True, "touch"):
         for pos in range(len(full) + 1):
-            w = [(s, 1, lng and s in ("r1", "r2", "q0", "q1")) for s in full]
+            w = [(s, 1, lng if s in ("r1", "r2", "q0", "q1") else False) for s in full]
             w.insert(pos, ("s01", 2, False))
             w.append(("r1", 2, False))
             yield w
